@@ -388,6 +388,49 @@ def run(ctx):
         C.check(okp, 'C10-MUST-localset', 'add_to_file_restricted|sub-elements-pinned-before-any-set-grows', 'add_to_file_restricted can extend the file set of the element or of an ancestor without having pinned the inheriting sub elements to the previous set '
                 '(the pin loop is skipped under a condition other than "this element is not splittable"): sub elements of an element without a set of its own silently follow into the new file, which "add only this element and its parents" excludes',
                 ar.where(pins[0]), sample={'fn': 'add_to_file_restricted', 'pin': 'subelem.file_membership.clone_from(current set)', 'before': ['own store', 'parent.add_to_file_restricted']})
+    # the SHORT-NAME of a named element is part of the element: it is never given a file set of its own by the pin loop (a file that
+    # contains the element but not its SHORT-NAME does not load on its own: RequiredSubelementMissing)
+    if pins:
+        okn = False
+        for q, t in ar.iter_calls():
+            if not call_matches(t, r'cmp::PartialEq::(eq|ne)$|ElementName as .*PartialEq>::(eq|ne)$') or len(t['args']) < 2:
+                continue
+            if not any(is_local_op(a) and 'ElementName' in (ar.local_ty(a['l']) or '') for a in t['args']):
+                continue
+            # one operand is the name of the sub element that is pinned (a place ending in ElementRaw.elemname or the result of
+            # element_name()), the other a constant (promoted: its value is not in the facts)
+            def name_of_subelement(a):
+                n_, c_, f_ = deep_sources(ar, a, depth=10)
+                return 'ElementRaw.elemname' in f_ or any(c.endswith('::element_name') for c in c_)
+            def constant(a, depth=5):
+                from flow import defs_of
+                while depth > 0 and is_local_op(a):
+                    depth -= 1
+                    ds = defs_of(ar, a['l'])
+                    if len(ds) != 1 or ds[0][1]['k'] != 'assign':
+                        return False
+                    rv = ds[0][1]['rv']
+                    if rv['k'] in ('ref', 'rawptr'):
+                        a = {'l': rv['pl']['l'], 'p': []}
+                    elif rv['k'] in ('use', 'cast'):
+                        a = rv['o']
+                    elif rv['k'] == 'agg' and rv.get('adt') == 'ElementName':
+                        return True
+                    else:
+                        return False
+                return not is_local_op(a)
+            if not (any(name_of_subelement(a) for a in t['args']) and any(constant(a) for a in t['args'])):
+                continue
+            sw = switch_edges_on_call_result(ar, q)
+            if not sw or set(sw[1].keys()) != {'0'}:
+                continue
+            is_ne = call_matches(t, r'::ne$')
+            is_sn_target = sw[1]['0'] if is_ne else sw[2]        # the edge taken when the sub element IS the SHORT-NAME
+            hdr = iteration_start(ar, pins[0])
+            if all(p_ not in ar.reach_from((is_sn_target, 0), include_start=True, avoid={hdr}) for p_ in pins) and all(ar.pos_dominates(q, p_) for p_ in pins):
+                okn = True
+        C.check(okn, 'C10-MUST-localset', 'add_to_file_restricted|short-name-is-never-pinned', 'the loop that pins the inheriting sub elements to the previous file set also pins the SHORT-NAME of a named element: the element is then in the new file, its SHORT-NAME is not, '
+                'and the text produced for the new file does not load on its own (RequiredSubelementMissing)', ar.where(pins[0]), sample={'fn': 'add_to_file_restricted', 'pin_loop_skips': 'ElementName::ShortName'})
     C.rule('C10-MUST-inherit', 'when a loaded file is merged, a model-side element that has its own file set hands THAT set (not the wider set of its parent) down to its children (shared with C09-MUST-restrict)')
     from c09 import own_set_rule
     own_set_rule(C, P, 'C10-MUST-inherit')
